@@ -795,22 +795,42 @@ func Cancel(e *Event) {
 //go:norace
 func (w *World) deadlock() {
 	msg := "deadlock: every task is blocked and no event is pending\n"
-	key := ""
+	// key: the distinct operations the tasks are blocked in (harness joins excluded), sorted
+	var reasons [8]string
+	nr := 0
 	for t := w.tasks; t != nil; t = t.next {
-		if t.state == stBlocked {
-			msg += fmt.Sprintf("  task %d %s (created at %s) blocked in %s\n", t.ID, t.Name, t.Site, t.Wreason)
-			if key == "" && t.SUT {
-				key = t.Site + ":" + t.Wreason
+		if t.state != stBlocked {
+			continue
+		}
+		msg += fmt.Sprintf("  task %d %s (created at %s) blocked in %s\n", t.ID, t.Name, t.Site, t.Wreason)
+		if len(t.Wreason) >= 5 && t.Wreason[:5] == "join " {
+			continue
+		}
+		dup := false
+		for i := 0; i < nr; i++ {
+			if reasons[i] == t.Wreason {
+				dup = true
 			}
+		}
+		if !dup && nr < len(reasons) {
+			reasons[nr] = t.Wreason
+			nr++
 		}
 	}
-	if key == "" {
-		for t := w.tasks; t != nil; t = t.next {
-			if t.state == stBlocked {
-				key = t.Name + ":" + t.Wreason
-				break
-			}
+	for i := 1; i < nr; i++ {
+		for j := i; j > 0 && reasons[j] < reasons[j-1]; j-- {
+			reasons[j], reasons[j-1] = reasons[j-1], reasons[j]
 		}
+	}
+	key := ""
+	for i := 0; i < nr; i++ {
+		if i > 0 {
+			key += "+"
+		}
+		key += reasons[i]
+	}
+	if key == "" {
+		key = "harness"
 	}
 	w.setVerdict("deadlock", key, msg)
 }
@@ -1024,8 +1044,9 @@ func LiveSUTTasks() []*Task {
 
 // StateCond is a Waitable over the simulator's own view of the SUT: it lets the harness place a fault
 // (a Stop, a Close) at the moment an interesting internal condition holds, instead of at a random time.
-//   BlockedIn != "": some SUT task is blocked in an operation whose description contains it
-//   LiveSite/LiveAtLeast: at least that many SUT tasks created at a site containing LiveSite are alive
+//
+//	BlockedIn != "": some SUT task is blocked in an operation whose description contains it
+//	LiveSite/LiveAtLeast: at least that many SUT tasks created at a site containing LiveSite are alive
 type StateCond struct {
 	BlockedIn   string
 	LiveSite    string
